@@ -1,21 +1,17 @@
-import SqlLineage.Proofs.ColumnsExact
-open SqlLineage Ast Walk Holder Graph ColumnsExact
+import SqlLineage.Props.C02
+open SqlLineage Ast Walk Holder Graph ColumnsExact SqlLineage.Props.C02
 
-def exStmt : Stmt :=
-  .insert .insertInto false ["tgt"] none
+def exDev : Stmt :=
+  .insert .insertInto false ["foo"] none
     (.select false
-      [.mk (.col ["x"] "a") none false,
-       .mk (.bin "+" (.col [] "b") (.lit "1")) (some "f") true,
-       .mk (.func "coalesce" false [.col ["x"] "c", .lit "2"] none) none false]
-      [.mk (.table ["s1", "t1"] (some "x") false) []] none [] none) false
+      [.mk (.col ["foo"] "x") (some "a") true,
+       .mk (.col ["foo"] "y") (some "b") true,
+       .mk (.lit "1") (some "l1") true,
+       .mk (.col ["foo"] "z") (some "c") true]
+      [.mk (.table ["bar"] none false) []]
+      none [] none) false
 
-def linEdges (r : Except Err LGraph) : List (Node × Node) :=
-  match r with
-  | .ok g => g.edges.filter (fun e => g.ety e.1 e.2 == some .lineage)
-  | .error _ => []
-
-#eval fragStmt {} exStmt
-#eval linEdges (analyze {} false exStmt)
-#eval specPairs {} ["tgt"] (stmtItems exStmt) (stmtFrom exStmt)
-
-example : fragStmt {} exStmt = true := by decide +kernel
+#eval fragStmt {} exDev
+#eval lineageEdges (analyze {} false exDev)
+#eval (specPairs {} (stmtTarget exDev) (stmtItems exDev) (stmtFrom exDev))
+#eval Render.stmt {} exDev
